@@ -3,6 +3,7 @@
 package worker
 
 import (
+	"errors"
 	"fmt"
 	"strings"
 	"time"
@@ -40,13 +41,33 @@ func c17Scenario(s *sc) {
 	s.must(in.WriteConfig(textA), "write config A")
 	s.must(in.Start(), "start")
 
+	rejectedBefore := false
+	// a reload that does not return is an observation of its own: "never hangs", and after a rejected reload the
+	// coordinator must stay usable. The scenario ends there (the instance is abandoned by Close under a watchdog).
+	hangs := func(how string) {
+		key := "reload-hangs"
+		if rejectedBefore {
+			key = "reload-hangs-after-rejected-reload"
+		}
+		s.violate(key, "%s did not return (rejected reload before: %v): the running configuration stays, but every later reload blocks", how, rejectedBefore)
+		panic(stopScenario{})
+	}
 	reload := func() (failed bool, detail string) {
+		defer func() { rejectedBefore = rejectedBefore || failed }()
 		if viaHTTP {
 			code, body, err := in.ReloadHTTP()
+			var ne interface{ Timeout() bool }
+			if err != nil && errors.As(err, &ne) && ne.Timeout() {
+				in.hung = true
+				hangs("POST /-/reload (20 s client timeout)")
+			}
 			s.must(err, "POST /-/reload")
 			return code != 200, fmt.Sprintf("HTTP %d %.100s", code, strings.TrimSpace(body))
 		}
 		if err := in.Reload(); err != nil {
+			if errors.Is(err, ErrHung) {
+				hangs(fmt.Sprintf("App.Reload (%s watchdog)", reloadWatchdog))
+			}
 			return true, fmt.Sprintf("%.120s", err.Error())
 		}
 		return false, "nil"
